@@ -37,6 +37,12 @@ def inline_name(world, k):
         if 'f' in c:
             c['f'] = _map_expr(c['f'], fn)
     del w['names'][k]
+    for n in w['names']:
+        if n.get('alias') is not None:
+            if n['alias'] == k:
+                del n['alias']      # becomes a plain name of the same target
+            elif n['alias'] > k:
+                n['alias'] -= 1
     return w
 
 
